@@ -305,12 +305,20 @@ func genCli(r *gen.Rand, idx int) cliCase {
 	}
 	nt := r.Chance(0.55)
 	pool := cliNamePools[r.PickInt([]int{0, 0, 1, 2})]
+	if k.Cmd == "dedup" {
+		k.NAsGap = (idx/3/len(modes))%2 == 0
+	}
 	for a := 0; a < na; a++ {
 		var seqs []string
+		twin := k.Cmd == "dedup" && r.Chance(0.6) // two rows that differ by wildcard / gap only: where the flag decides, in both directions
+		wantWild := k.NAsGap && twin && r.Chance(0.7)
 		for {
 			var class string
 			if k.Cmd == "dedup" {
 				seqs, class = genDedupSeqs(r, aligned, nt)
+				if wantWild && !strings.Contains(class, "wildcard") && !strings.Contains(class, "mixed") {
+					continue
+				}
 			} else {
 				seqs, class = genCompressSeqs(r)
 			}
@@ -318,6 +326,24 @@ func genCli(r *gen.Rand, idx int) cliCase {
 				k.Class = class
 				break
 			}
+		}
+		if twin && len(seqs) >= 2 {
+			// two rows that are the same sequence only when the wildcard of the alphabet counts as a gap
+			i := 1 + r.Intn(len(seqs)-1)
+			j := r.Intn(i)
+			w := byte('N')
+			if !nt {
+				w = 'X'
+			}
+			a, b := []byte(seqs[j]), []byte(seqs[j])
+			for t, np := 0, r.Range(1, 3); t < np; t++ {
+				p := r.Intn(len(a))
+				a[p], b[p] = '-', w
+				if r.Bool() {
+					a[p], b[p] = w, '-'
+				}
+			}
+			seqs[j], seqs[i] = string(a), string(b)
 		}
 		perm := r.Perm(len(pool))
 		rows := make([]row, len(seqs))
@@ -330,7 +356,6 @@ func genCli(r *gen.Rand, idx int) cliCase {
 	if k.Cmd == "compress" {
 		k.Weights = r.Chance(0.75)
 	} else {
-		k.NAsGap = (idx/3/len(modes))%2 == 0
 		k.Log = r.Chance(0.75)
 		if r.Chance(0.2) {
 			k.ByName = true
